@@ -295,6 +295,33 @@ def _bool_locals(body):
     return {i for i, l in enumerate(body.locals) if l["ty"] == "bool"}
 
 
+def _enum_locals(body):
+    """locals whose type is a field-less enum of the crate under analysis (a small finite state: tracked like the bools),
+    plus the integer temporaries that hold their discriminants"""
+    try:
+        from .effects import _FACTS_FOR_VERDICTS
+        facts = _FACTS_FOR_VERDICTS.get(id(body))
+    except Exception:
+        facts = None
+    if facts is None:
+        return {}, set()
+    plain = {}
+    for path, a in facts.adts.items():
+        if a["kind"] == "enum" and a["variants"] and all(not v["fields"] for v in a["variants"]):
+            ordered = any(im.get("self_adt") == path and im.get("trait") == "std::cmp::Ord" and im.get("derived") for im in facts.impls)
+            plain[path] = ordered
+    out = {}
+    for i, l in enumerate(body.locals):
+        if l["ty"] in plain:
+            out[i] = plain[l["ty"]]
+    discr_tmps = set()
+    for blk in body.blocks:
+        for st in blk["stmts"]:
+            if st["k"] == "assign" and st["rv"]["k"] == "discr" and not st["dst"]["p"] and not st["rv"]["p"]["p"] and st["rv"]["p"]["l"] in out:
+                discr_tmps.add(st["dst"]["l"])
+    return out, discr_tmps
+
+
 def flag_search(body, starts, init=None, stop=(), cut_edges=(), call_results=None, avoid=(), max_states=200000, on_state=None, stmt_results=None):
     """Explicit-state reachability over (block, valuation of bool locals with known value).
 
@@ -307,6 +334,7 @@ def flag_search(body, starts, init=None, stop=(), cut_edges=(), call_results=Non
     Returns (reached_blocks, reached_edges).
     """
     bl = _bool_locals(body)
+    el, discr_tmps = _enum_locals(body)
     init = dict(init or {})
     call_results = call_results or {}
     stop = set(stop)
@@ -344,6 +372,36 @@ def flag_search(body, starts, init=None, stop=(), cut_edges=(), call_results=Non
             if d["p"]:
                 continue
             l = d["l"]
+            if l in el or l in discr_tmps:
+                rv = s["rv"]
+                nv = None
+                if l in el:
+                    if rv["k"] == "agg" and rv.get("vi") is not None and not rv["ops"]:
+                        nv = (int(rv["vi"]),)
+                    elif rv["k"] == "use":
+                        q = rv["a"].get("c") or rv["a"].get("m")
+                        if q is not None and not q["p"] and isinstance(v.get(q["l"]), tuple):
+                            nv = v[q["l"]]
+                        elif "k" in rv["a"]:
+                            # a constant of the enum type: `const PassState::Finished` - the driver prints its name
+                            nm = (rv["a"]["k"].get("s") or "").split("::")[-1]
+                            try:
+                                from .effects import _FACTS_FOR_VERDICTS
+                                a_ = _FACTS_FOR_VERDICTS[id(body)].adts.get(body.locals[l]["ty"])
+                                names = [x["name"] for x in a_["variants"]]
+                                if nm in names:
+                                    nv = (names.index(nm),)
+                            except Exception:
+                                nv = None
+                elif rv["k"] == "discr":
+                    src = rv["p"]["l"]
+                    if isinstance(v.get(src), tuple):
+                        nv = v[src]
+                if nv is None:
+                    v.pop(l, None)
+                else:
+                    v[l] = nv
+                continue
             if l not in bl:
                 continue
             rv = s["rv"]
@@ -365,7 +423,24 @@ def flag_search(body, starts, init=None, stop=(), cut_edges=(), call_results=Non
         nxt = []
         if on_state is not None:
             on_state(bb, v)
-        if k == "switch":
+        ival = None
+        if k == "switch" and t.get("dty") != "bool":
+            q = t["d"].get("c") or t["d"].get("m")
+            if q is not None and not q["p"] and q["l"] in discr_tmps:
+                iv = v.get(q["l"])
+                if isinstance(iv, tuple):
+                    ival = iv
+        if ival is not None:
+            nxt = []
+            for one in ival:
+                tgt = None
+                for val_, b2 in t["targets"]:
+                    if val_ == one:
+                        tgt = b2
+                tgt = tgt if tgt is not None else t["else"]
+                if tgt not in nxt:
+                    nxt.append(tgt)
+        elif k == "switch":
             dv = _op_bool(t["d"], v) if t.get("dty") == "bool" else None
             if dv is not None:
                 tgt = None
@@ -377,6 +452,41 @@ def flag_search(body, starts, init=None, stop=(), cut_edges=(), call_results=Non
                 nxt = [tgt]
             else:
                 nxt = [x[1] for x in t["targets"]] + [t["else"]]
+        elif k == "call" and not t["dst"]["p"] and t["dst"]["l"] in el:
+            d = t["dst"]
+            nm = t["f"].get("name")
+            res = None
+            if nm in ("max", "min") and el.get(d["l"]) and len(t["args"]) == 2:
+                vals = []
+                try:
+                    from .effects import _FACTS_FOR_VERDICTS
+                    nvar = len(_FACTS_FOR_VERDICTS[id(body)].adts[body.locals[d["l"]]["ty"]]["variants"])
+                except Exception:
+                    nvar = 0
+                for a_ in t["args"]:
+                    q = a_.get("c") or a_.get("m")
+                    if q is not None and not q["p"] and isinstance(v.get(q["l"]), tuple):
+                        vals.append(v[q["l"]])
+                    elif q is not None and not q["p"] and q["l"] in el and nvar:
+                        vals.append(tuple(range(nvar)))        # unknown: any variant
+                    elif "k" in a_:
+                        nm2 = (a_["k"].get("s") or "").split("::")[-1]
+                        try:
+                            from .effects import _FACTS_FOR_VERDICTS
+                            names = [x["name"] for x in _FACTS_FOR_VERDICTS[id(body)].adts[body.locals[d["l"]]["ty"]]["variants"]]
+                            if nm2 in names:
+                                vals.append((names.index(nm2),))
+                        except Exception:
+                            pass
+                if len(vals) == 2:
+                    f_ = max if nm == "max" else min
+                    res = tuple(sorted({f_(a1, b1) for a1 in vals[0] for b1 in vals[1]}))
+            if res is None:
+                v.pop(d["l"], None)
+            else:
+                v[d["l"]] = res
+            if t.get("t") is not None:
+                nxt = [t["t"]]
         elif k == "call":
             d = t["dst"]
             if not d["p"] and d["l"] in bl:
@@ -761,6 +871,8 @@ def only_params_and_consts(e, depth=0):
         return only_params_and_consts(e.a, depth + 1) and only_params_and_consts(e.b, depth + 1)
     if e.k == "call" and (e.q or "").split("::")[-1] in ("len",) and e.args:
         return only_params_and_consts(e.args[0], depth + 1)
+    if e.k in ("field", "deref", "ref") and e.a is not None:
+        return only_params_and_consts(e.a, depth + 1)      # self.buf, (*self).n: state of a parameter
     return False
 
 
